@@ -1293,6 +1293,16 @@ def c11(project, obs, view=None):
     for f in c03(project, obs, v, prefix="C11/teardowns"):
         if "/teardown-" in f.signature or "/enclosing-scope" in f.signature:
             out.append(f)
+    # ... and they run to their end: without a keyboard interrupt no logging call of user code raises by itself, so a
+    # teardown (generator fixture after its yield, teardown_suite / teardown_test hook) that was left by such a call
+    # was started but did not do its job
+    if v.interrupt_at is None:
+        for e in v.execs:
+            is_td = (e.unit[0] == "fx" and e.unit[2] == "teardown") or (e.unit[0] == "hook" and e.unit[2] in ("teardown_suite", "teardown_test"))
+            if is_td and not is_nested(e.unit) and e.end_kind == "raise:interrupted":
+                scope = v.byprim[e.unit[1]]["scope"] if e.unit[0] == "fx" else e.unit[2]
+                out.append(F("C11/teardowns/teardown-cut-short/" + scope,
+                             "%r was left by a logging call that raised although no keyboard interrupt was delivered" % (e,)))
     return _dedupe(out)
 
 
